@@ -23,7 +23,7 @@ empty string is `-`.
   frag-fmt <term>              → s:<hex>   model of format_program on the fragment (Core/Text/Fragment)
   frag-print <width> <term>    → s:<hex>   print (programDoc term) width
   frag-parse <hex-source>      → ok <term> <hex-rest> | err <offset-from-end> <code> | out   (programP)
-      <term> ::= (l <hex-name>) | (t <term>*)
+      <term> ::= (l <hex-name>) | (t <hex-tuple-name | _> <field>*)    <field> ::= (u <term>) | (n <hex-label> <term>)
 -/
 open QM QM.Text
 
@@ -129,14 +129,33 @@ def renderOpt : Option (List Char) → String
   | some cs => s!"some {charsToHex cs}"
   | none => "none"
 
+mutual
 partial def fragOfSx : Sx → Option QM.Frag.T
   | .list [.atom "l", .atom h] => (hexToChars h).map .leaf
-  | .list (.atom "t" :: fs) => (fs.mapM fragOfSx).map .tup
+  | .list (.atom "t" :: .atom name :: fs) =>
+    match (if name = "_" then some none else (hexToChars name).map some), fs.mapM fragFieldOfSx with
+    | some name, some fs => some (.tup name fs)
+    | _, _ => none
   | _ => none
+partial def fragFieldOfSx : Sx → Option QM.Frag.F
+  | .list [.atom "u", t] => (fragOfSx t).map (.mk none)
+  | .list [.atom "n", .atom h, t] =>
+    match hexToChars h, fragOfSx t with
+    | some l, some t => some (.mk (some l) t)
+    | _, _ => none
+  | _ => none
+end
 
+mutual
 partial def fragToSx : QM.Frag.T → String
   | .leaf n => s!"(l {charsToHex n})"
-  | .tup fs => "(t" ++ String.join (fs.map (fun f => " " ++ fragToSx f)) ++ ")"
+  | .tup name fs =>
+    "(t " ++ (match name with | none => "_" | some n => charsToHex n) ++
+      String.join (fs.map (fun f => " " ++ fragFieldToSx f)) ++ ")"
+partial def fragFieldToSx : QM.Frag.F → String
+  | .mk none t => s!"(u {fragToSx t})"
+  | .mk (some l) t => s!"(n {charsToHex l} {fragToSx t})"
+end
 
 def textStep (req : List Sx) : String :=
   match req with
